@@ -3,7 +3,7 @@
    probability; the theorems are deterministic in the converted draw e and hold for every key, dimension and M of C13's domain. *)
 From Coq Require Import ZArith List Lia.
 From TV Require Import Base.Int32 Ring.NegaRing Model.Numeric Model.Lwe Model.Tlwe Model.Gates Model.Encrypt
-  Proofs.Numeric Proofs.Tlwe Proofs.Tgsw Proofs.Encrypt Proofs.Decrypt.
+  Proofs.Numeric Proofs.Tlwe Proofs.Tgsw Proofs.Encrypt Proofs.Decrypt Model.Decomp Model.Tgsw Proofs.Decomp Proofs.Gadget Proofs.TgswDecrypt.
 Import ListNotations.
 Local Open Scope Z_scope.
 
@@ -50,6 +50,41 @@ Theorem C03_tlwe_encrypt_phase : forall N, (0 < N)%nat -> forall key ds c r, For
     eqNm N (PHv N key c) (ofl (map (gaussian32 0) gs)).
 Proof. exact tlwe_encrypt_zero_spec. Qed.
 Print Assumptions C03_tlwe_encrypt_phase.
+
+(* TGSW: tGswSymDecrypt returns the message polynomial of every sample built as "encryptions of zero + mu * gadget"
+   (tGswAddMuH), for every N, k >= 1, valid (l, Bgbit), key and Msize of C13's domain, when Msize * (noise seen through the
+   indicator's digits + Msize * truncation error + Msize) stays below 2^31 - Msize *)
+Theorem C03_tgsw_decrypt_correct : forall N, (0 < N)%nat -> forall key k, wf_tkey N k key -> (1 <= k)%nat ->
+  forall l B, valid_layout l B -> forall M, inDomain M -> forall mu Z0 (noise : vec),
+  lenN N mu -> Forall (wf_tsample N k) Z0 -> length Z0 = (S k * l)%nat ->
+  (forall j, (j < N)%nat -> 0 <= nth j mu 0 < M) ->
+  eqNm N (vsum l (fun i => vscale (cdig l B M i) (PHv N key (nth (k * l + i) Z0 [])))) noise ->
+  (forall j, (j < N)%nat -> M * (Z.abs (noise j) + M * pow2 (32 - Z.of_nat l * B) + M) + M + 1 < p31) ->
+  tgsw_decrypt l B key (add_mu_h l B mu Z0) M = mu.
+Proof. exact tgsw_decrypt_correct. Qed.
+Print Assumptions C03_tgsw_decrypt_correct.
+
+(* ... hence decrypt (encrypt mu) = mu for every draw stream whose converted Gaussian draws are at most eta in absolute value *)
+Theorem C03_tgsw_decrypt_encrypt : forall N, (0 < N)%nat -> forall key k, wf_tkey N k key -> (1 <= k)%nat ->
+  forall l B, valid_layout l B -> forall M, inDomain M -> forall mu ds C r eta,
+  lenN N mu -> (forall j, (j < N)%nat -> 0 <= nth j mu 0 < M) ->
+  tgsw_sym_encrypt l B key N mu ds = Some (C, r) ->
+  (forall g, In (DG (fst g) (snd g)) ds -> Z.abs (gaussian32 0 g) <= eta) ->
+  M * (Z.of_nat l * halfBg B * eta + M * pow2 (32 - Z.of_nat l * B) + M) + M + 1 < p31 ->
+  tgsw_decrypt l B key C M = mu.
+Proof. exact tgsw_decrypt_encrypt. Qed.
+Print Assumptions C03_tgsw_decrypt_encrypt.
+
+Definition ex_ds : list draw :=
+  [DG 5 32; DG (-3) 32; DU 11; DU (-12); DG 2 32; DG 9 32; DU 13; DU 14; DG (-7) 32; DG 1 32; DU (-15); DU 16; DG 4 32; DG (-8) 32; DU 17; DU 18; DU 99].
+Example C03_tgsw_nonvacuous :
+  wf_tkey 2 1 [[1; 0]] /\ valid_layout 2 8 /\ inDomain 4 /\
+  4 * (Z.of_nat 2 * halfBg 8 * 10 + 4 * pow2 (32 - Z.of_nat 2 * 8) + 4) + 4 + 1 < p31 /\
+  match tgsw_sym_encrypt 2 8 [[1; 0]] 2 [1; 3] ex_ds with
+  | Some (C, r) => r = [DU 99] /\ tgsw_decrypt 2 8 [[1; 0]] C 4 = [1; 3]
+  | None => False end.
+Proof. split; [split; [reflexivity|repeat constructor]|]. split; [unfold valid_layout; cbn; lia|]. split; [left; lia|].
+  split; [vm_compute; reflexivity|]. vm_compute. split; reflexivity. Qed.
 
 Example C03_nonvacuous :
   inDomain 8 /\ 8 * Z.abs 268435000 + 8 + 1 < p31 /\
